@@ -50,14 +50,16 @@ def run(tier, seed):
         c.add_tlc(r, f"IpCanon W={w}: Covers AllAligned Ascending Minimal PrefixIff SingleIff")
         cases += r.replay
     # 4. the resource builders as state machines: any sequence of inherit() / blocks() calls, then finalize()
-    mc = 2 if quick else 3
-    cfg = cfg_with(wd, "MC_ResBuilder.cfg", "builder.cfg", [("MaxCalls = 2", f"MaxCalls = {mc}")])
-    r = tlc("MC_ResBuilder", cfg, workers=workers, xmx="8g", timeout=3000)
-    tlc_must_hold(r, "ResBuilder")
-    vlib.require_coverage(r, ["CallInherit", "CallBlocks"], "ResBuilder")
-    c.add_tlc(r, f"resource builders, up to {mc} calls (inherit, or blocks with up to 2 pushes over 0..3): BuilderLaw (a bare builder collects over "
-                 "calls, inherit forgets) TbsLaw (in a certificate under construction the last call alone decides)")
-    cases += r.replay
+    #    (two calls with up to two pushes each; thorough: also three calls with up to one push each - the full product of three
+    #    calls with two pushes is 1.4 M sequences, which costs more to print and parse than it can tell)
+    for (mc, mp) in ([(2, 2)] if quick else [(2, 2), (3, 1)]):
+        cfg = cfg_with(wd, "MC_ResBuilder.cfg", f"builder{mc}{mp}.cfg", [("MaxCalls = 2", f"MaxCalls = {mc}"), ("MaxPush = 2", f"MaxPush = {mp}")])
+        r = tlc("MC_ResBuilder", cfg, workers=workers, xmx="8g", timeout=3000)
+        tlc_must_hold(r, "ResBuilder")
+        vlib.require_coverage(r, ["CallInherit", "CallBlocks"], "ResBuilder")
+        c.add_tlc(r, f"resource builders, up to {mc} calls (inherit, or blocks with up to {mp} pushes over 0..3): BuilderLaw (a bare builder collects over "
+                     "calls, inherit forgets) TbsLaw (in a certificate under construction the last call alone decides)")
+        cases += r.replay
     if len(cases) < 100:
         raise vlib.ToolError("too few replay cases")
     path = write_ndjson(os.path.join(wd, "cases.ndjson"), cases)
